@@ -176,18 +176,26 @@ theorem maplist_noswap_loses_identity (b : List Stmt) (s : Store) (l : Ref) (hl 
 
 /-! ## 5. NeuronList operators -/
 
-/-- `+`, `-`, `&` and `|` with a list build a new list object and leave the store as it was. -/
+/-- `+`, `-`, `&` and `|` (with a neuron — member or not — or with a list) build a new list object and leave the
+store, in particular the receiver's own list, as it was. -/
 theorem list_ops_frame (s : Store) (l o : Ref) (keep : Ref → Bool) (extra : List Ref) (present : Bool) :
     Ext s (listAdd s l o).1 ∧ Ext s (listFilter s l keep).1 ∧ Ext s (listOrList s l extra).1 ∧
-    Ext s (listOrFixed s l o present).1 :=
+    Ext s (listOr s l o present).1 :=
   ⟨(Ext.refl s).allocLst _, (Ext.refl s).allocLst _, (Ext.refl s).allocLst _, (Ext.refl s).allocLst _⟩
 
-/-- **Known defect (DESIGN §6 #6).** `NeuronList.__or__` with a single neuron that is not yet a member appends to
-the *receiver's* own list object: for every valid receiver the input list is modified. -/
-theorem list_or_mutates_receiver (s : Store) (l o : Ref) (hl : l < s.lists.length) :
-    (listOr s l o false).1.lst l = s.lst l ++ [o] ∧ ¬ Ext s (listOr s l o false).1 := by
-  have h1 : (listOr s l o false).1.lst l = s.lst l ++ [o] := by
-    simp only [listOr, Bool.false_eq_true, if_false]
+/-- `nl | n` returns a fresh list holding the receiver's neurons, plus `n` exactly when it was not a member. -/
+theorem list_or_result (s : Store) (l o : Ref) (present : Bool) :
+    (listOr s l o present).2 = s.lists.length ∧
+    (listOr s l o present).1.lst (listOr s l o present).2 = (if present then s.lst l else s.lst l ++ [o]) :=
+  ⟨rfl, lst_allocLst_new _ _⟩
+
+/-- **HISTORICAL (DESIGN §6 #6, fixed in navis).** `NeuronList.__or__` as written *before* the fix appended a
+non-member neuron to the receiver's own list object: for every valid receiver the input list was modified.  The
+harness now reports a VIOLATION if this behaviour returns. -/
+theorem list_or_prefix_mutated_receiver (s : Store) (l o : Ref) (hl : l < s.lists.length) :
+    (listOrPreFix s l o false).1.lst l = s.lst l ++ [o] ∧ ¬ Ext s (listOrPreFix s l o false).1 := by
+  have h1 : (listOrPreFix s l o false).1.lst l = s.lst l ++ [o] := by
+    simp only [listOrPreFix, Bool.false_eq_true, if_false]
     have : (s.setLst l (s.lst l ++ [o])).lists.length = s.lists.length := by simp [Store.setLst]
     have hext : Ext (s.setLst l (s.lst l ++ [o])) ((s.setLst l (s.lst l ++ [o])).allocLst
         ((s.setLst l (s.lst l ++ [o])).lst l)).1 := (Ext.refl _).allocLst _
@@ -198,10 +206,6 @@ theorem list_or_mutates_receiver (s : Store) (l o : Ref) (hl : l < s.lists.lengt
   rw [h1] at this
   have := congrArg List.length this
   simp at this
-
-/-- When the neuron is already a member nothing is appended. -/
-theorem list_or_present_frame (s : Store) (l o : Ref) : Ext s (listOr s l o true).1 :=
-  (Ext.refl s).allocLst _
 
 /-! ## 6. the premise, checked against the source text -/
 
@@ -281,8 +285,11 @@ the view held by a copy made earlier (`TreeNeuron.copy` documents this: "changes
 example : let p := copyObj s0 0
     (exec p.1 0 [.wr .graph bump]).abs p.2 ≠ p.1.abs p.2 := by decide
 
-/-- **Negative witness 4.** `nl | n` changes the receiver's list; `nl + n` does not. -/
-example : (listOr s0 0 5 false).1.lst 0 = [0, 5] ∧ (listAdd s0 0 5).1.lst 0 = [0] := by decide
+/-- **Historical witness 4.** `nl | n` as written before the fix changed the receiver's list; the repaired operator
+and `nl + n` do not. -/
+example : (listOrPreFix s0 0 5 false).1.lst 0 = [0, 5] ∧ (listOr s0 0 5 false).1.lst 0 = [0] ∧
+    (listAdd s0 0 5).1.lst 0 = [0] := by decide
+example : let r := listOr s0 0 5 false; r.1.lst r.2 = [0, 5] := by decide
 
 /-- list mapping: same list object in place, new list object otherwise; dropping the swap loses identity -/
 example : (mapList [.wr .nodes bump] s0 0 true).2 = 0 ∧ (mapList [.wr .nodes bump] s0 0 false).2 = 1 ∧
